@@ -191,6 +191,7 @@ impl<C: ConfigurationAccess> PciRoot<C> {
             configuration_access: &self.configuration_access,
             device_function,
             next_capability_offset: self.capabilities_offset(device_function),
+            ttl: MAX_CAPABILITIES,
         }
     }
 
@@ -537,13 +538,26 @@ pub struct CapabilityIterator<'a, C: ConfigurationAccess> {
     configuration_access: &'a C,
     device_function: DeviceFunction,
     next_capability_offset: Option<u8>,
+    /// The number of capabilities which may still be returned, to guarantee termination even if
+    /// the device presents a cyclic list.
+    ttl: u8,
 }
+
+/// The maximum number of capabilities which fit in the 192 bytes of configuration space after the
+/// standard header, as each one is at least 4 bytes long and 4 byte aligned.
+const MAX_CAPABILITIES: u8 = 48;
 
 impl<C: ConfigurationAccess> Iterator for CapabilityIterator<'_, C> {
     type Item = CapabilityInfo;
 
     fn next(&mut self) -> Option<Self::Item> {
         let offset = self.next_capability_offset?;
+        if self.ttl == 0 {
+            warn!("Capability list is too long or cyclic, ignoring the rest");
+            self.next_capability_offset = None;
+            return None;
+        }
+        self.ttl -= 1;
 
         // Read the first 4 bytes of the capability.
         let capability_header = self
